@@ -174,4 +174,17 @@ def file_into(rep: Report, prop: str, tier: str, kinds=None, only=None, all_cont
                              witness={"function": name, "line": v["lineno"]}, seconds=v["seconds"], function=name)
                 else:
                     rep.undecided(oid, v["kind"], f"{short}: {v['desc']}", v["backend"], str(v["model"]), seconds=v["seconds"], function=name)
+    # run-time cross-check of the same clause texts on the real functions (bounded; validates the encoding, see checks/rtcheck.py)
+    rt = [name.split(":")[1] for name, c in REGISTRY.items() if (prop in c.properties or all_contracts) and c.verify and name.split(":")[1].split(".")[-1] in RT_CALLABLE
+          and (not only or name.split(":")[1] in only)]
+    if rt and not kinds:
+        from checks import rtcheck
+        rtcheck.crosscheck(rep, rt)
     return n
+
+
+# functions whose arguments the run-time cross-check can build (plain tokens / nodes / lists of them; no tokenizer state needed)
+RT_CALLABLE = {"expand_env_name", "expand_env_expr", "expand_search_path", "proc_pyexpr", "handle_proc", "proc_inject", "macro_call", "handle_with_macro_stmt",
+               "handle_func_macro_start", "handle_with_macro_start", "handle_proc_macro_start", "proc_macro_arg", "set_expr_context", "expand_help",
+               "_append_node_or_token", "is_adjacent", "_strip_path_prefix", "proc_args", "concatenate_strings", "handle_fstring", "_concat_strings_in_constant",
+               "literal_eval", "ensure_real", "ensure_imaginary", "extract_import_level"}
